@@ -2695,6 +2695,11 @@ bool BW_MidiSequencer::parseCMF(FileAndMemReader &fr)
     fr.seeku(mus_start, FileAndMemReader::SET);
     trackCount = 1;
     deltaTicks = (size_t)ticks;
+    if(deltaTicks == 0)
+    {
+        m_errorString = fr.fileName() + ": Invalid format, the time division is zero!\n";
+        return false;
+    }
 
     rawTrackData.clear();
     rawTrackData.resize(trackCount, std::vector<uint8_t>());
@@ -2851,6 +2856,12 @@ bool BW_MidiSequencer::parseSMF(FileAndMemReader &fr)
 
     if(smfFormat > 2)
         smfFormat = 1;
+
+    if(deltaTicks == 0)
+    {
+        m_errorString = fr.fileName() + ": Invalid format, the time division is zero!\n";
+        return false;
+    }
 
     rawTrackData.clear();
     rawTrackData.resize(TrackCount, std::vector<uint8_t>());
